@@ -338,6 +338,8 @@ impl<'a> Sem<'a> {
             // value, but no identifier anywhere declares it - nothing to go to, no occurrence
             if matches!(self.p.decls[*d].kind, DeclKind::Defm | DeclKind::Def) && self.p.decls[*d].name != name {
                 self.p.spans.push((self.cur, r, "composed-record-name"));
+                // (the indexer knows that the record exists, not what class it has)
+                self.untyped_uses += 1;
                 return r;
             }
             if self.p.decls[*d].file != self.cur {
